@@ -32,14 +32,14 @@ RULE = (
 ASSUMPTIONS = [
     'transport stand-in semantics (see C14): a deadline completes the client future with code 4 while the handler may still run and take effect (at-most-once is not provided)',
     f'the library clock is dilated by S={SCALE:g} (time.time x S, sleep / S, transport deadlines / S); call_timeout={CALL_TIMEOUT:g}s and heartbeat_threshold={HB_THRESHOLD:g}s library time keep the shipped ordering interval < deadline < threshold',
-    'a dead worker stays dead for the rest of the case (restarts are exercised separately by revive plans)',
+    'a dead worker stays dead for the rest of the case, except for the `restart` fault: the worker is unreachable for 0.4 s real time and then answers again under the same address with its generator state lost',
     'the last worker of the pool is never faulted and the retry budget is not exhausted; if the library nevertheless reports all workers timed out although the transport saw that worker healthy, the case is inconclusive (load), never a violation',
     'non-retriable application errors must surface as an exception whose text names the failing task',
 ]
-REQUIRED = ['as_completed_cases', 'run_cases', 'sharded_cases', 'late_death_cases', 'faults_hit',
+REQUIRED = ['as_completed_cases', 'run_cases', 'sharded_cases', 'late_death_cases', 'no_deadline_cases', 'faults_hit',
             'tasks_delivered', 'fault_free_cases', 'app_error_cases', 'release_checks']
 CHUNK_TIMEOUT_S = {'quick': 500, 'thorough': 3400}
-FAULT_KINDS = ['lost_request', 'lost_reply', 'slow', 'die_before', 'die_after']
+FAULT_KINDS = ['lost_request', 'lost_reply', 'slow', 'die_before', 'die_after', 'restart']
 
 
 def plan(tier, seed):
@@ -115,19 +115,36 @@ class Runner:
     self.courier = courier
     cwork.setup(scale=SCALE)
 
-  def make_pool(self, W, par, ibs=1):
+  def make_pool(self, W, par, ibs=1, call_timeout=CALL_TIMEOUT):
     from ml_metrics._src.chainables import courier_worker
     servers = self.cwork.start_servers(W, 'c06w')
     addrs = [s.address for s in servers]
     raw = {s.address: s._server.address for s in servers}  # pylint: disable=protected-access
     pool = courier_worker.WorkerPool(
-        addrs, call_timeout=CALL_TIMEOUT, max_parallelism=par,
+        addrs, call_timeout=call_timeout, max_parallelism=par,
         heartbeat_threshold_secs=HB_THRESHOLD, iterate_batch_size=ibs)
     return servers, addrs, raw, pool
 
-  def install_plan(self, raw_addrs, faults):
+  def install_plan(self, raw_addrs, faults, servers=None):
     """raw_addrs: worker index -> transport address."""
+    import threading
     sim = self.courier.sim
+    by_raw = {s._server.address: s for s in (servers or [])}  # pylint: disable=protected-access
+
+    def restart(addr):
+      # The worker process is replaced: unreachable for a while, then back under
+      # the same address with its generator state lost.
+      sim.kill(addr)
+
+      def back():
+        time.sleep(0.4)
+        srv = by_raw.get(addr)
+        if srv is not None:
+          srv._generator = None  # pylint: disable=protected-access
+          srv._enqueue_thread = None  # pylint: disable=protected-access
+        sim.revive(addr)
+
+      threading.Thread(target=back, daemon=True).start()
     table = {}
     for w, idx, kind in faults:
       table[(raw_addrs[w], idx)] = kind
@@ -140,6 +157,21 @@ class Runner:
       hits.append((addr, method, idx, kind))
       if kind == 'slow':
         return {'kind': 'ok', 'delay': (CALL_TIMEOUT * 1.6) / SCALE}
+      if kind == 'restart':
+        restart(addr)
+        return {'kind': 'lost_request'}
+      if kind == 'exit_notice':
+        # The worker process exits while holding this call: the call is never
+        # answered, its port refuses new connections, and its death notice
+        # (heartbeat(is_alive=False) to the master) unregisters it at once.
+        from ml_metrics._src.utils import courier_utils
+        sim.kill(addr)
+        sim.refusing.add(addr)
+        for name, srv in list(by_raw.items()):
+          if name == addr:
+            sim.refusing.add(srv.address)
+            courier_utils.worker_registry().unregister(srv.address)
+        return {'kind': 'lost_request'}
       return {'kind': kind}
 
     sim.fault_plan = plan
@@ -158,11 +190,12 @@ def _healthy_last_worker(runner, raw_last):
 def run_as_completed(ctx, runner, case):
   from vlib import c16lib
   from ml_metrics._src.chainables import lazy_fns, orchestrate
-  servers, addrs, raw, pool = runner.make_pool(case['W'], case['par'])
+  servers, addrs, raw, pool = runner.make_pool(
+      case['W'], case['par'], call_timeout=0 if case.get('no_deadline') else CALL_TIMEOUT)
   raw_list = [raw[a] for a in addrs]
   try:
     pool.wait_until_alive(deadline_secs=HB_THRESHOLD, minimum_num_workers=case['W'])
-    hits = runner.install_plan(raw_list, case['faults'])
+    hits = runner.install_plan(raw_list, case['faults'], servers)
     T = case['T']
     tasks = [lazy_fns.trace(c16lib.task_fn)(
         i, fail='value' if case.get('app_error') == i else None) for i in range(T)]
@@ -217,7 +250,7 @@ def run_sharded(ctx, runner, case):
           'agg': 'sum', 'fused': True, 'num_threads': 0}
   try:
     pool.wait_until_alive(deadline_secs=HB_THRESHOLD, minimum_num_workers=case['W'])
-    hits = runner.install_plan(raw_list, case['faults'])
+    hits = runner.install_plan(raw_list, case['faults'], servers)
     rq = queue.SimpleQueue()
     outs = []
 
@@ -316,6 +349,8 @@ def judge(ctx, case, res):
              'sharded_late_death': 'late_death_cases'}[driver])
   hit = len(res['hits'])
   ctx.count('faults_hit', hit)
+  if case.get('no_deadline'):
+    ctx.count('no_deadline_cases')
   if not case.get('faults') and case.get('app_error') is None and driver != 'sharded_late_death':
     ctx.count('fault_free_cases')
   ctx.case((driver, {k: v for k, v in case.items()}), hit >= 1)
@@ -330,9 +365,18 @@ def judge(ctx, case, res):
     return
   exc = res['exc']
   exc_text = f'{type(exc).__name__}: {exc}' if exc is not None else None
-  if exc is not None and isinstance(exc, TimeoutError) and 'All workers timeout' in str(exc) \
-      and res['last_healthy']:
-    ctx.inconclusive_case('library saw no alive worker although the unfaulted one was healthy (load)', case)
+  STALE = 'healthy-idle-worker-heartbeat-transiently-stale'
+  if exc is not None and res['last_healthy'] and (
+      (isinstance(exc, TimeoutError) and 'All workers timeout' in str(exc))
+      or type(exc).__name__ == 'InvalidStateError'):
+    if case.get('no_deadline'):
+      # Known finding: heartbeats are only probed lazily once stale, so an idle
+      # healthy worker looks dead for an instant exactly when the heartbeat of
+      # the really dead worker expires (both were last refreshed together).
+      ctx.violation('driver_raised', case, {'error': exc_text[:300], 'hits': res['hits']},
+                    mechanism=STALE)
+    else:
+      ctx.inconclusive_case('library saw no alive worker although the unfaulted one was healthy (load)', case)
     return
   ctx.count('release_checks')
   if driver in ('as_completed', 'run'):
@@ -432,6 +476,14 @@ def run_chunk(ctx, spec):
     # the enumerated sub-space is spread over seeds in the quick tier
     cases = [c for i, c in enumerate(cases) if (i + spec['rseed']) % 3 == 0]
   cases += gen_cases(rng, spec['per_chunk'])
+  for _ in range(2 if spec['tier'] == 'quick' else 10):
+    # No call deadline: a worker that dies while holding a task is only noticed
+    # through its stale heartbeat (the "worker disconnected" branch).
+    W = rng.randint(2, 3)
+    cases.append({'driver': 'as_completed', 'W': W, 'par': 1, 'no_deadline': True,
+                  'faults': [[rng.randrange(W - 1), rng.randint(0, 2),
+                              rng.choice(['die_before', 'die_after', 'exit_notice', 'exit_notice'])]],
+                  'T': rng.randint(3, 8), 'app_error': None, 'ignore_failures': False})
   for _ in range(1 if spec['tier'] == 'quick' else 6):
     W = rng.randint(2, 3)
     cases.append({'driver': 'sharded_late_death', 'W': W, 'par': 1, 'faults': [],
